@@ -159,6 +159,12 @@ def step (st : DS) : List String → DS × String
     | some db, some c, some n => (st, showOpt showSnap (load db ⟨c, n, lab l⟩))
     | none, some _, some _ => (st, "reject")
     | _, _, _ => (st, "bad-op")
+  | ["delete", c, n, l] => match st.db, parseNat? c, parseNat? n with
+    | some db, some c, some n => (match delete db ⟨c, n, lab l⟩ with
+      | some db' => ({ st with db := some db' }, "ok")
+      | none => (st, "reject"))
+    | none, some _, some _ => (st, "reject")
+    | _, _, _ => (st, "bad-op")
   | ["has", c, n, l] => match st.db, parseNat? c, parseNat? n with
     | some db, some c, some n => (st, showBool (hasKey db ⟨c, n, lab l⟩))
     | none, some _, some _ => (st, "reject")
@@ -226,6 +232,18 @@ def step (st : DS) : List String → DS × String
         let d2 : DbCfg := { cfg := cfg2, opener := op, stateAt := stampState cfg2 off2, opened := restartStore src sc sn }
         (st, match fileAfterRun d2 with | none => "none" | some s => showStore s)
     | _, _, _, _, _, _, _ => (st, "bad-op")
+  | "restartc" :: idx :: off1 :: off2 :: sc :: sn :: opener :: rest =>
+    -- as `restart`, but the restarted run aborts inside hook call number idx
+    match parseNat? idx, parseInt? off1, parseInt? off2, parseNat? sc, parseNat? sn, parseNat? opener,
+      parseCfg? (rest.take 14), parseCfg? (rest.drop 14) with
+    | some idx, some off1, some off2, some sc, some sn, some op, some cfg1, some cfg2 =>
+      let d1 : DbCfg := { cfg := cfg1, opener := op, stateAt := stampState cfg1 off1 }
+      match fileAfterRun d1 with
+      | none => (st, "none")
+      | some src =>
+        let d2 : DbCfg := { cfg := cfg2, opener := op, stateAt := stampState cfg2 off2, opened := restartStore src sc sn }
+        (st, match fileAfterCrash d2 idx with | none => "none" | some s => showStore s)
+    | _, _, _, _, _, _, _, _ => (st, "bad-op")
   | ["name", c, n, l] => match parseNat? c, parseNat? n with
     | some c, some n => (st, showName ⟨c, n, lab l⟩) | _, _ => (st, "bad-op")
   | _ => (st, "bad-op")
